@@ -14,6 +14,13 @@ RULE = ('two consumer probes (random signature incl. defaults, kw-only, allow/de
         'operative-record model; operative_config_str() is re-parsed by the real ConfigParser (recording delegate) + section headers and must equal '
         'the model\'s representable subset exactly (sections, parameters, values, macro section, no constant section); when everything supplied is '
         'representable: clear, parse that text, repeat the calls -> same arguments, same provider runs, same text. '
+        'Extension: consumers also __new__ classes, with **kwargs (bound names outside the signature) and *rest, signature defaults of gin.REQUIRED; '
+        'probe bodies that call other configurables (depth <= 3, same or other configurable, under an added or a replaced scope; a configurable '
+        'subclass calling super().__init__ of its configurable base) and bodies that raise Exception / BaseException after recording; macros defined '
+        'by macros, reference scopes of several components, bindings added in mid-history, dotted scope components (recorded finding); the text is '
+        'read and compared after every step (1/8 of the cases) or after one step (1/4), and under other (max_line_length, continuation_indent); '
+        'every binding line must sit under the header of its own (scope, configurable), no header and no line twice, macro definitions outside the '
+        'parameter sections. '
         'distinct = (signature features, tree features, scopes used, override pattern, history length)')
 TIERS = {
     'quick': {'workers': 8, 'cases': 1350, 'timeout': 600},
@@ -26,6 +33,27 @@ REQUIRED_BUCKETS = ['section:none-marker', 'section:scoped', 'section:provider',
                     'param:nonrepresentable-omitted', 'param:nonrepresentable-default-omitted', 'replay:done', 'history:rebind', 'history:5+calls',
                     'shape:method', 'shape:init', 'shape:fn', 'override:keyword-on-reference', 'never-called-configurable-bound', 'history:failed-call-on-unbound-macro', 'history:rebind-equal-but-different', 'override:gin.REQUIRED-marker', 'history:failed-call-after-successful-call']
 REQUIRED_BUCKETS = REQUIRED_BUCKETS + ['history:consumer-mutated-supplied-container', 'history:macro-redefined-after-use']
+# extension wave (audit gaps): nested calls, raising bodies, **kwargs / *rest consumers, text read after every step, signature default gin.REQUIRED,
+# __new__ classes, macro defined by a macro, multi-component reference scopes, bindings added in mid-history, format parameters, section structure
+REQUIRED_BUCKETS = REQUIRED_BUCKETS + ['history:nested-call', 'history:nested-call-depth2', 'history:nested-call-same-configurable', 'history:nested-call-under-added-scope',
+                                       'history:nested-call-under-replaced-scope', 'history:super-init-of-configurable-base', 'history:body-raises-Exception',
+                                       'history:body-raises-BaseException', 'history:nested-body-raises', 'param:varkw-name-shown', 'param:varkw-name-caller-supplied-omitted',
+                                       'call:extra-positional-rest', 'param:signature-required-filled-from-binding', 'shape:new', 'section:macro-defined-by-macro',
+                                       'ref:scope-of-several-components', 'history:binding-added-after-default-recorded', 'text:read-after-every-step',
+                                       'text:read-after-rebind-before-next-call', 'text:format-variant', 'text:format-variant-multiline-value', 'replay:of-format-variant',
+                                       'structure:binding-lines-under-own-header', 'scope:dotted-component']
+ENABLE_NESTED = True      # probe bodies that call other configurables (and a configurable subclass calling super().__init__)
+ENABLE_RAISING = True     # probe bodies that raise after recording (Exception and BaseException)
+ENABLE_VARKW = True       # consumers with **kwargs (bindings to names outside the signature) and *rest (extra positional arguments)
+ENABLE_SIG_REQUIRED = True  # a signature default of gin.REQUIRED
+ENABLE_MID_READS = True   # operative_config_str() read and compared after every step of the history
+ENABLE_FORMATS = True     # operative_config_str(max_line_length, continuation_indent) variants
+# a scope component with a period (config_scope accepts 'c.d'): the text printed for it does not parse = recorded finding
+# 'dotted-scope-component-printed-but-not-parseable'; reported under exactly that key, and only if nothing else is wrong with the text
+ENABLE_DOTTED_SCOPES = True
+DOT = '_DOT_'
+FORMATS = [[12, 0], [1, 7], [200, 2], [30, 8], [79, 4]]
+SUB, BASE = 2, 3          # indices of the fixed configurable subclass / base class in a case's probe list
 ORACLE_COUNTERS = ['oracle_evals', 'texts_compared', 'replays']
 _S = {}
 HDR = re.compile(r'^# Parameters for (.+):$')
@@ -40,6 +68,97 @@ def setup(ctx):
   gin.constant('c7.other.CONST_B', probes.Opaque('constB'))
   _S['never'] = probes.build({'shape': 'fn', 'api': 'external', 'name': 'c7never', 'module': 'c7', 'pos': [], 'dflt': [['z', 1]], 'varargs': False,
                               'kwonly': [], 'varkw': False})
+  _S['plan'] = {}
+  _S['fixed'] = build_fixed()
+
+
+class C7Error(Exception):
+  """Raised by a probe body (after it recorded what it received)."""
+
+
+class C7Abort(BaseException):
+  """Raised by a probe body: not an Exception."""
+
+
+BASE_SPEC = {'shape': 'init', 'api': 'configurable', 'name': 'c7Base', 'module': 'c7x', 'pos': [], 'dflt': [['b', 1], ['shared', 'base-shared'], ['w', None]],
+             'varargs': False, 'kwonly': [], 'varkw': False}
+SUB_SPEC = {'shape': 'init', 'api': 'configurable', 'name': 'c7Sub', 'module': 'c7x', 'pos': [], 'dflt': [['s', 2], ['shared', 'sub-shared']],
+            'varargs': False, 'kwonly': [['k', True, 'sub-k']], 'varkw': False}
+
+
+def body(pid, via=None):
+  """What a probe body does after recording: the planned nested call (through `via` = super().__init__ for the subclass), then the planned failure."""
+  import gin
+  plan = _S['plan'].pop(pid, None)
+  n = plan['nest'] if plan else None
+  if n is None:
+    if via is not None:
+      via([], {})
+  elif n['how'] is None:
+    execute(n, via)
+  else:
+    # 'rel': a name appended to the active scope; 'abs': a list, which replaces the active scope
+    with gin.config_scope(n['how'][1] if n['how'][0] == 'rel' else list(n['how'][1])):
+      execute(n, via)
+  if plan and plan['raise']:
+    raise (C7Error if plan['raise'] == 'exc' else C7Abort)('the body fails after it recorded its arguments')
+
+
+def execute(prep, via=None):
+  p = prep['p']
+  _S['plan'][p.pid] = {'nest': prep['nest'], 'raise': prep['raise']}
+  try:
+    if via is not None:
+      via(list(prep['P']), dict(prep['K']))
+    else:
+      probes.call_probe(p, list(prep['P']), dict(prep['K']))
+  finally:
+    _S['plan'].pop(p.pid, None)
+
+
+def build_hooked(spec):
+  """probes.build, but the body continues with body(pid) after it recorded (the recorder is the first thing every probe body calls)."""
+  R = probes.RECORDER
+  plain = R.rec
+
+  def rec(pid, received):
+    r = plain(pid, received)
+    body(pid)
+    return r
+  R.rec = rec
+  try:
+    return probes.build(spec)
+  finally:
+    del R.rec
+
+
+def build_fixed():
+  """A configurable class and a configurable subclass whose constructor calls super().__init__ (both record, both follow the plan)."""
+  import gin
+  rec = probes.RECORDER.rec
+
+  @gin.configurable('c7Base', module='c7x')
+  class Base:
+
+    def __init__(self, b=1, shared='base-shared', w=None):
+      rec('c7base', {'b': b, 'shared': shared, 'w': w})
+      body('c7base')
+
+  @gin.configurable('c7Sub', module='c7x')
+  class Sub(Base):
+
+    def __init__(self, s=2, shared='sub-shared', *, k='sub-k'):
+      rec('c7sub', {'s': s, 'shared': shared, 'k': k})
+      body('c7sub', via=lambda P, K: super(Sub, self).__init__(*P, **K))
+
+  out = []
+  for spec, pid, conf in ((SUB_SPEC, 'c7sub', Sub), (BASE_SPEC, 'c7base', Base)):
+    p = probes.Probe()
+    p.spec, p.pid, p.name, p.module, p.conf, p.original = spec, pid, spec['name'], spec['module'], conf, conf
+    p.selector = '%s.%s' % (p.module, p.name)
+    p.key_selector = p.name
+    out.append(p)
+  return out
 
 
 def representable(v):
@@ -104,9 +223,11 @@ def gen_tree(rng, depth):
       return ['lit', rng.choice([1, 'x', None, 2.5, -0.0, True, [1, 2], {'a': [0]}, (3,), '', 'a"b\'c', b'by', 1e300, {1: {2: (3, 'four')}}, 'long ' * 30])]
     if k < 0.75:
       scopes = [rng.choice(['s1', 's2'])] if rng.random() < 0.35 else []
+      if scopes and rng.random() < 0.3:
+        scopes = rng.choice([['s1', 's2'], ['s2', 's1'], ['s1', 's2', 's1']])   # a reference scope of several components
       return ['ref', 'prov%d' % rng.randrange(3), scopes, rng.random() < 0.7]
     if k < 0.86:
-      return ['macro', rng.choice(['m0', 'mm/m1'])]
+      return ['macro', rng.choice(['m0', 'mm/m1', 'm2'])]
     if k < 0.92:
       return ['const', rng.choice(['CONST_A', 'mod.CONST_A', 'CONST_B'])]
     return ['obj', rng.choice(['opaque', 'set', 'nan', 'inf', 'lambda'])]
@@ -130,50 +251,111 @@ def has(t, kinds):
 
 def gen_consumer(rng, shape):
   spec = probes.gen_spec(rng, shapes=[shape], lists=True, max_pos=2)
-  spec['varargs'] = False
-  spec['varkw'] = False
+  spec['varargs'] = ENABLE_VARKW and rng.random() < 0.2      # extra positional arguments go to *args
+  spec['varkw'] = ENABLE_VARKW and rng.random() < 0.25       # names outside the signature go to **kwargs
+  if spec['varkw']:
+    spec['extra'] = ['e0', 'e1']
   for d in spec['dflt']:
     d[1] = rng.choice(['dflt-' + d[0], 3, [1, 2], {'__obj__': 'od'}, None, (1, 'x')])
   for k in spec['kwonly']:
     if k[1]:
       k[2] = rng.choice(['dflt-' + k[0], 0.5, {'__obj__': 'ok'}])
+  if ENABLE_SIG_REQUIRED and rng.random() < 0.2:
+    # a signature default of gin.REQUIRED (only on a configurable parameter: anything else is refused at registration)
+    cands = [d for d in spec['dflt'] if is_configurable(spec, d[0])] + [k for k in spec['kwonly'] if k[1] and is_configurable(spec, k[0])]
+    if cands:
+      rng.choice(cands)[-1] = {'__required__': 1}
   return spec
+
+
+def is_configurable(spec, x):
+  allow, deny = spec.get('allow'), spec.get('deny')
+  return not ((allow and x not in allow) or (deny and x in deny))
+
+
+def sig_required(spec, x):
+  v = probes.default_values(spec).get(x)
+  return isinstance(v, dict) and '__required__' in v
+
+
+def has_no_default(spec, x):
+  """Somebody has to supply x: no default in the signature, or the default is gin.REQUIRED."""
+  return x in spec['pos'] or any(k[0] == x and not k[1] for k in spec['kwonly']) or sig_required(spec, x)
+
+
+def bindable_names(spec):
+  return [x for x in probes.all_named(spec) + list(spec.get('extra', [])) if is_configurable(spec, x)]
+
+
+def gen_call(rng, specs, depth=0, parent=None):
+  """One call entry ['call', ci, scope, over, then_fail, extras]; nested entries have scope None | ['rel', name] | ['abs', [names]]."""
+  if parent == SUB:
+    ci = BASE                # the subclass constructor always calls super().__init__
+  elif depth:
+    ci = rng.choice([0, 1, 0, 1, BASE, SUB])
+  else:
+    ci = rng.choice([0, 1] * 5 + [SUB, BASE]) if ENABLE_NESTED else rng.randrange(2)
+  spec = specs[ci]
+  over = {}
+  for x in probes.all_named(spec) + list(spec.get('extra', [])):
+    if rng.random() < 0.3:
+      over[x] = rng.choice(['kw', 'kw', 'pos', 'req-kw', 'req-pos'])
+  if depth:
+    scope = rng.choice([None, None, ['rel', 'a'], ['rel', 'b'], ['rel', 'n'], ['rel', 'a/b'], ['abs', ['a']], ['abs', []], ['abs', ['b', 'c']]])
+  else:
+    scope = rng.choice([[], [], ['a'], ['a', 'b'], ['b'], ['c'], ['a', 'c'], ['a', 'b', 'c'], ['a', 'b', 'a', 'b']])
+  if ENABLE_DOTTED_SCOPES and rng.random() < 0.008:
+    scope = rng.choice([['c.d'], ['a', 'c.d'], ['c.d', 'b']]) if not depth else ['rel', 'c.d']
+  ex = {}
+  if ci == SUB or (ENABLE_NESTED and depth < 2 and rng.random() < (0.22 if depth == 0 else 0.3)):
+    ex['nest'] = gen_call(rng, specs, depth + 1, ci)
+  if ENABLE_RAISING and rng.random() < 0.1:
+    ex['raise'] = rng.choice(['exc', 'base'])
+  if spec.get('varargs') and rng.random() < 0.3:
+    ex['rest'] = True
+  return ['call', ci, scope, over, depth == 0 and rng.random() < 0.15, ex]
 
 
 def iter_cases(ctx, rng, n):
   for i in range(n):
-    specs = [gen_consumer(rng, ['fn', 'init', 'method'][i % 3]), gen_consumer(rng, rng.choice(['fn', 'init']))]
+    specs = [gen_consumer(rng, ['fn', 'init', 'method', 'new'][i % 4]), gen_consumer(rng, rng.choice(['fn', 'init', 'new']))]
+    allspecs = specs + [SUB_SPEC, BASE_SPEC]
     binds = []
-    for ci, spec in enumerate(specs):
-      names = probes.all_named(spec)
-      allow, deny = spec.get('allow'), spec.get('deny')
-      for x in names:
-        if (allow and x not in allow) or (deny and x in deny):
-          continue
-        for sc in rng.sample(['', 'a', 'a/b', 'b'], rng.choice([0, 1, 1, 2])):
+    for ci, spec in enumerate(allspecs):
+      if ci >= 2 and not ENABLE_NESTED:
+        break
+      for x in bindable_names(spec):
+        for sc in rng.sample(['', 'a', 'a/b', 'b'], rng.choice([0, 1, 1, 2] if ci < 2 else [0, 0, 1])):
           binds.append([ci, sc, x, gen_tree(rng, rng.choice([0, 1, 2]))])
     graph = {'prov1': rng.choice([None, ['ref', 'prov0', [], True], ['ref', 'prov0', ['g1'], True]]),
              'prov2': rng.choice([None, None, ['ref', 'prov1', [], True], ['list', [['ref', 'prov0', [], True], ['lit', 5]]]])}
     macros = {'m0': rng.choice([['ref', 'prov0', [], True], ['lit', [1, [2]]], ['lit', 'mv']]),
-              'mm/m1': rng.choice([['ref', 'prov2', [], True], ['list', [['ref', 'prov0', [], True]]], ['lit', 7]])}
+              'mm/m1': rng.choice([['ref', 'prov2', [], True], ['list', [['ref', 'prov0', [], True]]], ['lit', 7]]),
+              # a macro whose value is (or contains) another macro
+              'm2': rng.choice([['macro', 'm0'], ['macro', 'mm/m1'], ['list', [['macro', 'm0'], ['lit', 3]]], ['dict', [[['lit', 'k'], ['macro', 'mm/m1']]]]])}
     history = []
     for _ in range(rng.choice([1, 2, 3, 4, 5, 6, 8])):
       if rng.random() < 0.12 and binds:
         b = rng.choice(binds)
         history.append(['rebind', b[0], b[1], b[2], gen_tree(rng, 1), rng.random() < 0.5])
         continue
-      ci = rng.randrange(2)
-      over = {}
-      for x in probes.all_named(specs[ci]):
-        if rng.random() < 0.3:
-          over[x] = rng.choice(['kw', 'kw', 'pos', 'req-kw', 'req-pos'])
-      history.append(['call', ci, rng.choice([[], [], ['a'], ['a', 'b'], ['b'], ['c'], ['a', 'c'], ['a', 'b', 'c'], ['a', 'b', 'a', 'b']]), over,
-                      rng.random() < 0.15])
+      if rng.random() < 0.08:
+        # a binding that did not exist so far is added in mid-history (the default was shown until then)
+        ci = rng.randrange(2)
+        free = [(x, sc) for x in bindable_names(specs[ci]) for sc in ['', 'a', 'b'] if not any(b[0] == ci and b[1] == sc and b[2] == x for b in binds)]
+        if free:
+          x, sc = rng.choice(free)
+          history.append(['rebind', ci, sc, x, gen_tree(rng, 1), False])
+          continue
+      history.append(gen_call(rng, allspecs))
     if rng.random() < 0.25:
       # a macro is given another value between calls, often after the last one: the record keeps what the calls were given
       at = len(history) if rng.random() < 0.6 else rng.randrange(len(history) + 1)
       history.insert(at, ['remacro', rng.choice(['m0', 'mm/m1']), rng.choice([['lit', 'redefined'], ['lit', [9, [8]]], ['ref', 'prov0', [], True]]), rng.random() < 0.5])
-    yield {'specs': specs, 'binds': binds, 'graph': graph, 'macros': macros, 'history': history}
+    # when the text is read and compared in mid-history: after every step / after one step / only at the end
+    mid = rng.choice(['all', 'one', 'one', None, None, None, None, None]) if ENABLE_MID_READS else None
+    yield {'specs': specs, 'binds': binds, 'graph': graph, 'macros': macros, 'history': history, 'mid': mid, 'mid_at': rng.randrange(len(history)),
+           'fmt': rng.choice(FORMATS + [None] * 10) if ENABLE_FORMATS else None}
 
 
 class OpModel:
@@ -187,6 +369,7 @@ class OpModel:
     self.bind = {}       # (scope, selector) -> {param: tree}
     self.prov_calls = []
     self.macros = dict(case['macros'])    # current definitions (a history may re-define them)
+    self.calls_log = []  # (consumer index, scope, completed override pattern) of every call made, nested ones included
 
   def record(self, scope, selector, vals):
     self.op.setdefault(('/'.join(scope), selector), {}).update(vals)
@@ -227,8 +410,8 @@ class OpModel:
     for n, v in probes.default_values(spec).items():
       if (allow and n not in allow) or (deny and n in deny):
         continue
-      if isinstance(v, dict) and '__obj__' in v:
-        continue  # no literal form
+      if isinstance(v, dict) and ('__obj__' in v or '__required__' in v):
+        continue  # no literal form (an opaque object; gin.REQUIRED)
       vals[n] = ['lit', v]
     applicable = models.overlay(self.bind, p.selector, scope)
     vals.update(applicable)
@@ -245,17 +428,227 @@ class OpModel:
 
 
 def parse_operative(text):
-  """sections (ordered header list), bindings {(scope, selector, arg): value} via the real parser."""
-  headers = [HDR.match(l).group(1) for l in text.splitlines() if HDR.match(l)]
-  bindings, imports, includes, order = snap.parse_text(text)
-  return headers, bindings, order
+  """headers [(line, name)], statements [(line, scope, selector, arg, value)] in text order, via the real parser (recording delegate)."""
+  from gin import config_parser
+
+  class Rec(config_parser.ParserDelegate):
+
+    def configurable_reference(self, name, evaluate):
+      return ('@ref', name, bool(evaluate))
+
+    def macro(self, name):
+      return ('%macro', name)
+
+  headers = [(i + 1, HDR.match(l).group(1)) for i, l in enumerate(text.splitlines()) if HDR.match(l)]
+  stmts = []
+  for st in config_parser.ConfigParser(text, Rec()):
+    if isinstance(st, config_parser.BindingStatement):
+      stmts.append((st.location.line_num, st.scope, st.selector, st.arg_name, st.value))
+  return headers, stmts
 
 
-def run_history(ctx, case, plist, objs, model, phase):
+def check_text(ctx, model, text, where):
+  """The oracle proper: `text` against the operative-record model as it stands.  Returns None if the text could not be compared, else
+  {'all_repr': every recorded value has a literal form, 'exp_bind': expected lines}."""
+  from gin import config as gc
+  ctx.count('texts_compared')
+  dotted = sorted({c for sc, _ in model.op for c in sc.split('/') if '.' in c})
+  if dotted:
+    ctx.bucket('scope:dotted-component')
+  try:
+    headers, stmts = parse_operative(text)
+  except Exception as e:  # pylint: disable=broad-except
+    # recorded finding: a section under a scope with a period in a component is printed, but the config language has no such binding key.
+    # Only that: with the periods of those components spelled otherwise, the text must parse and is then compared as usual.
+    sane = undot(text, dotted) if dotted else None
+    try:
+      headers, stmts = parse_operative(sane) if sane is not None else (None, None)
+    except Exception:  # pylint: disable=broad-except
+      headers = None
+    if headers is None:
+      ctx.check(False, 'operative-config-does-not-parse', 'operative_config_str() %s does not parse: %r\n%s' % (where, e, text[:800]))
+      return None
+    ctx.check(False, 'dotted-scope-component-printed-but-not-parseable',
+              'operative_config_str() %s prints a binding key under scope component(s) %r, which does not parse: %r' % (where, dotted, e), {'text': text[:800]})
+    ctx.bucket('scope:dotted-component-text-does-not-parse')
+    headers = [(l, h.replace(DOT, '.')) for l, h in headers]
+    stmts = [(l, sc.replace(DOT, '.'), sel, arg, v) for l, sc, sel, arg, v in stmts]
+  # ---- expected sections
+  exp_sections = set()
+  exp_bind = {}
+  all_repr = True
+  for (sc, sel), vals in model.op.items():
+    exp_sections.add((sc, sel))
+    shown = 0
+    for prm, tree in vals.items():
+      r = tree_repr(tree)
+      if r is None:
+        all_repr = False
+        ctx.bucket('param:nonrepresentable-omitted')
+        continue
+      shown += 1
+      exp_bind[(sc, sel, prm)] = r[1]
+    if not shown:
+      ctx.bucket('section:none-marker')
+    if sc:
+      ctx.bucket('section:scoped')
+    if sel.startswith('c4.prov'):
+      ctx.bucket('section:provider')
+  for m, tree in model.macros_used.items():
+    ctx.bucket('section:macro')
+    if has(tree, ('macro',)):
+      ctx.bucket('section:macro-defined-by-macro')
+    r = tree_repr(tree)
+    if r is None:
+      all_repr = False
+    else:
+      exp_bind[('MACRO', m, '')] = r[1]
+  if model.consts_used:
+    ctx.bucket('section:constant-omitted')
+  # ---- observed sections, resolved to complete names
+  got_sections = set()
+  hdr_at = []     # (line, (scope, complete selector))
+  for line, h in headers:
+    sc, _, sel = h.rpartition('/')
+    try:
+      ent = gc._REGISTRY.get_match(sel)
+    except KeyError:
+      ent = None
+    if not ctx.check(ent is not None, 'section-header-does-not-resolve', 'section header %r does not resolve to one configurable' % h):
+      return None
+    ctx.check((sc, ent.selector) not in got_sections, 'operative-section-duplicated',
+              '%s: two section headers for %r\n%s' % (where, h, text[:800]))
+    got_sections.add((sc, ent.selector))
+    hdr_at.append((line, (sc, ent.selector)))
+  ctx.check(got_sections == exp_sections, 'operative-sections-differ',
+            '%s: sections printed %r, model (called pairs) %r\n%s' % (where, sorted(got_sections - exp_sections), sorted(exp_sections - got_sections), text[:600]))
+  got_bind = {}
+  structure_ok = True
+  for line, sc, sel, arg, v in stmts:
+    own = [k for l, k in hdr_at if l < line]
+    if not arg:
+      key = ('MACRO', (sc + '/' if sc else '') + sel, '')
+      # a macro definition is no parameter of any configurable: it does not belong into a parameter section
+      structure_ok &= bool(ctx.check(not own, 'macro-definition-inside-a-parameter-section',
+                                     '%s: line %d defines macro %s under the header of %r\n%s' % (where, line, key[1], own[-1:], text[:800])))
+    else:
+      try:
+        ent = gc._REGISTRY.get_match(sel)
+      except KeyError:
+        ent = None
+      if ent is None:
+        ctx.check(False, 'binding-line-does-not-resolve', 'binding %s/%s.%s does not resolve' % (sc, sel, arg))
+        return None
+      key = (sc, ent.selector, arg)
+      structure_ok &= bool(ctx.check(bool(own) and own[-1] == key[:2], 'binding-line-under-foreign-header',
+                                     '%s: line %d binds %r but the nearest header above is for %r\n%s' % (where, line, key, own[-1:], text[:800])))
+    structure_ok &= bool(ctx.check(key not in got_bind, 'operative-parameter-listed-twice', '%s: %r is listed twice\n%s' % (where, key, text[:800])))
+    got_bind[key] = v
+  if structure_ok and len(hdr_at) > 1 and sum(1 for st in stmts if st[3]) > 1:
+    ctx.bucket('structure:binding-lines-under-own-header')
+  ga = {k: canon(v) for k, v in got_bind.items()}
+  ea = {k: canon(v) for k, v in exp_bind.items()}
+  if ga != ea:
+    d = snap.diff(ga, ea)
+    ctx.check(False, 'operative-parameters-differ', '%s: operative text vs model (printed, expected): %r' % (where, {k: d[k] for k in list(d)[:6]},),
+              {'text': text[:1500]})
+  else:
+    ctx.count('oracle_evals')
+  return {'all_repr': all_repr, 'exp_bind': exp_bind, 'dotted': bool(dotted)}
+
+
+def undot(text, dotted):
+  """`text` with the periods inside the scope components `dotted` of headers and binding keys (line starts only) spelled DOT."""
+  alt = '|'.join(re.escape(c) for c in dotted)
+  pat = re.compile(r'(?m)^((?:# Parameters for )?(?:[A-Za-z_][\w.]*/)*?)(%s)/' % alt)
+  for _ in range(8):
+    new = pat.sub(lambda m: m.group(1) + m.group(2).replace('.', DOT) + '/', text)
+    if new == text:
+      break
+    text = new
+  return text
+
+
+def prepare(ctx, h, plist, model, phase, ambient):
+  """Arguments of one call entry (and of the calls nested in it).  In the first phase the entry is completed in place so that the call is
+  well-formed under the bindings that apply in its scope; the replay phase repeats the completed entry."""
+  import gin
+  _, ci, sc, over = h[:4]
+  ex = h[5] if len(h) > 5 else {}
+  p = plist[ci]
+  spec = p.spec
+  if ambient is None:
+    scope, how = list(sc), None
+  elif sc is None:
+    scope, how = list(ambient), None
+  elif sc[0] == 'rel':
+    scope, how = list(ambient) + sc[1].split('/'), sc
+  else:
+    scope, how = list(sc[1]), sc
+  pos = probes.positional_names(spec)
+  names = probes.all_named(spec) + list(spec.get('extra', []))
+  rest = bool(ex.get('rest')) and bool(spec.get('varargs'))
+  P, K = [], {}
+  prefix = True
+  supplied = []
+  needed = []
+  bound_here = models.overlay(model.bind, p.selector, scope) if model else None
+  for x in names:
+    o = over.get(x)
+    if phase == 'first':
+      # keep the call well-formed: parameters without default that have no applicable binding are supplied by keyword
+      need = has_no_default(spec, x) and x not in bound_here
+      if o in ('req-kw', 'req-pos') and x not in bound_here:
+        o = None   # gin.REQUIRED is only passed where a binding applies (unfilled REQUIRED is C10's subject)
+      o = (o or 'kw') if need else o
+      if rest and x in pos and o not in ('pos', 'req-pos'):
+        o = 'pos'  # extra positional arguments can only follow all the named ones
+      over[x] = o
+      if need:
+        needed.append(x)
+    if o in ('req-kw', 'req-pos'):
+      # the caller marks the parameter gin.REQUIRED: Gin supplies it, so it belongs in the record
+      if phase == 'first':
+        ctx.bucket('override:gin.REQUIRED-marker')
+      if o == 'req-pos' and prefix and x in pos and pos.index(x) == len(P):
+        P.append(gin.REQUIRED)
+      else:
+        prefix = False
+        K[x] = gin.REQUIRED
+    elif o == 'pos' and prefix and x in pos and pos.index(x) == len(P):
+      P.append(['caller', x])
+      supplied.append(x)
+    elif o:
+      prefix = False
+      K[x] = ['caller', x]
+      supplied.append(x)
+    else:
+      prefix = False
+  if rest and len(P) == len(pos):
+    P += [['caller', '*0'], ['caller', '*1']]
+    if phase == 'first':
+      ctx.bucket('call:extra-positional-rest')
+  nest = None
+  if ex.get('nest') is not None:
+    nest = prepare(ctx, ex['nest'], plist, model, phase, scope)
+  return {'h': h, 'ci': ci, 'p': p, 'P': P, 'K': K, 'supplied': supplied, 'needed': needed, 'scope': scope, 'how': how, 'bound': bound_here,
+          'nest': nest, 'raise': ex.get('raise'), 'over': over}
+
+
+def nodes(prep):
+  out = []
+  while prep is not None:
+    out.append(prep)
+    prep = prep['nest']
+  return out
+
+
+def run_history(ctx, case, plist, objs, model, phase, fmt=None):
   """Runs the history; returns list of per-call observations (shapes of what each consumer received, provider runs)."""
   import gin
   obs = []
-  for h in case['history']:
+  ci_of = {p.pid: i for i, p in enumerate(plist)}
+  for hi, h in enumerate(case['history']):
     if h[0] == 'remacro':
       if phase == 'first':
         ctx.bucket('history:macro-redefined-after-use' if h[1] in model.macros_used else 'history:macro-redefined')
@@ -265,8 +658,7 @@ def run_history(ctx, case, plist, objs, model, phase):
           gin.bind_parameter((h[1], 'gin.macro', 'value'), tree_value(h[2], objs))
         model.macros[h[1]] = h[2]
       obs.append(('remacro',))
-      continue
-    if h[0] == 'rebind':
+    elif h[0] == 'rebind':
       _, ci, sc, prm, tree = h[:5]
       p = plist[ci]
       old = (model.bind if model else {}).get((sc, p.selector), {}).get(prm)
@@ -279,96 +671,107 @@ def run_history(ctx, case, plist, objs, model, phase):
           ctx.bucket('history:rebind-equal-but-different')
       if phase == 'first':
         # statement X: never a non-representable value after a representable one for the same parameter
-        if old is not None and tree_repr(old) is not None and tree_repr(tree) is None:
+        # (a binding added where only the default applied so far replaces a representable default, or nothing)
+        if (old is None or tree_repr(old) is not None) and tree_repr(tree) is None:
           tree = ['lit', 'rebound']
           h[4] = tree
+        if old is None and any(k[1] == p.selector and prm in vals for k, vals in model.op.items()):
+          ctx.bucket('history:binding-added-after-default-recorded')
         gin.bind_parameter((sc, p.selector, prm), tree_value(tree, objs))
         model.bind.setdefault((sc, p.selector), {})[prm] = tree
         ctx.bucket('history:rebind')
       obs.append(('rebind',))
-      continue
-    _, ci, scope, over = h[:4]
-    then_fail = len(h) > 4 and h[4]
-    p = plist[ci]
-    spec = p.spec
-    pos = probes.positional_names(spec)
-    names = probes.all_named(spec)
-    P, K = [], {}
-    prefix = True
-    supplied = []
-    needed = []
-    bound_here = models.overlay(model.bind, p.selector, scope) if model else None
-    for x in names:
-      o = over.get(x)
-      need = False
-      if phase == 'first':
-        # keep the call well-formed: parameters without default that have no applicable binding are supplied by keyword
-        no_default = x in spec['pos'] or any(k[0] == x and not k[1] for k in spec['kwonly'])
-        need = no_default and x not in bound_here
-        if o in ('req-kw', 'req-pos') and x not in bound_here:
-          o = None   # gin.REQUIRED is only passed where a binding applies (unfilled REQUIRED is C10's subject)
-        h[3][x] = o = (o or 'kw') if need else o
-        if need:
-          needed.append(x)
-      if o in ('req-kw', 'req-pos'):
-        # the caller marks the parameter gin.REQUIRED: Gin supplies it, so it belongs in the record
-        if phase == 'first':
-          ctx.bucket('override:gin.REQUIRED-marker')
-        if o == 'req-pos' and prefix and x in pos and pos.index(x) == len(P):
-          P.append(gin.REQUIRED)
-        else:
-          prefix = False
-          K[x] = gin.REQUIRED
-      elif o == 'pos' and prefix and x in pos and pos.index(x) == len(P):
-        P.append(['caller', x])
-        supplied.append(x)
-      elif o:
-        prefix = False
-        K[x] = ['caller', x]
-        supplied.append(x)
-      else:
-        prefix = False
-    mark = probes.RECORDER.mark()
-    with gin.config_scope(list(scope)):
-      probes.call_probe(p, P, K)
-    recs = probes.RECORDER.since(mark)
-    cons = [r for r in recs if r.pid == p.pid]
-    provs = sorted((_S['by_pid'][r.pid], r.scope) for r in recs if r.pid in _S['by_pid'])
-    received = cons[0].received if cons else None
-    obs.append(('call', ci, tuple(scope), normalise(received), provs))
-    if phase == 'first' and received and bound_here:
-      # the consumer edits, in place, the containers Gin handed it: the record of what Gin supplied must not change with them
-      nm = 0
-      for x in bound_here:
-        # (a constant is delivered as the very object: editing it edits the constant, which is the user's business)
-        if x not in supplied and not has(bound_here[x], ('const',)) and not (has(bound_here[x], ('macro',)) and any(has(mt, ('const',)) for mt in case['macros'].values())):
-          got = received.get(x) if x in received else (received.get('**') or {}).get(x)
-          nm += c04.mutate(got)
-      if nm:
-        ctx.bucket('history:consumer-mutated-supplied-container')
-    if then_fail and needed and phase == 'first' and needed[0] in K:
-      # the same call again, but one parameter nobody provides is left out: TypeError; what the earlier calls recorded must survive
-      K2 = {k: v for k, v in K.items() if k != needed[0]}
-      try:
-        with gin.config_scope(list(scope)):
-          probes.call_probe(p, list(P), K2)
-        ctx.check(False, 'call-with-missing-argument-succeeded', 'call without %r succeeded' % needed[0])
-      except TypeError:
-        ctx.bucket('history:failed-call-after-successful-call')
-      if model is not None:
-        # providers of Gin-supplied references run before the failure is detected
-        gs2 = models.overlay(model.bind, p.selector, scope)
-        for n_, t_ in gs2.items():
-          if n_ not in supplied:
-            model.evaluate(t_, scope)
-    if model is not None:
-      before = len(model.prov_calls)
-      gs = model.call_consumer(ci, scope, supplied)
-      ctx.check(sorted(model.prov_calls[before:]) == provs, 'provider-runs-differ-from-model',
-                'call of consumer %d under %r (caller supplied %r): providers ran %r, model %r' % (ci, scope, supplied, provs, sorted(model.prov_calls[before:])))
-      if any(o == 'kw' and x in (bound_here or {}) and has(bound_here[x], ('ref', 'macro')) for x, o in over.items() if o):
-        ctx.bucket('override:keyword-on-reference')
+    else:
+      obs.append(run_call(ctx, case, plist, model, phase, h, ci_of))
+    if phase == 'first' and (case.get('mid') == 'all' or (case.get('mid') == 'one' and case.get('mid_at') == hi)) and hi < len(case['history']) - 1:
+      # the text is a function of the history so far: read it now and compare it with the model as it stands
+      check_text(ctx, model, gin.operative_config_str(), 'after step %d (%s) of %d' % (hi, h[0], len(case['history'])))
+      if case.get('mid') == 'all':
+        ctx.bucket('text:read-after-every-step')
+      if h[0] == 'rebind' and any(x[0] == 'call' for x in case['history'][:hi]):
+        ctx.bucket('text:read-after-rebind-before-next-call')
   return obs
+
+
+def run_call(ctx, case, plist, model, phase, h, ci_of):
+  import gin
+  then_fail = len(h) > 4 and h[4]
+  prep = prepare(ctx, h, plist, model, phase, None)
+  chain = nodes(prep)
+  p, P, K, scope, supplied, needed, bound_here = prep['p'], prep['P'], prep['K'], prep['scope'], prep['supplied'], prep['needed'], prep['bound']
+  raises = any(n['raise'] for n in chain)
+  if phase == 'first':
+    for d, n in enumerate(chain[1:]):
+      ctx.bucket('history:nested-call' if d == 0 else 'history:nested-call-depth2')
+      if n['ci'] == chain[d]['ci']:
+        ctx.bucket('history:nested-call-same-configurable')
+      if n['how'] is not None:
+        ctx.bucket('history:nested-call-under-added-scope' if n['how'][0] == 'rel' else 'history:nested-call-under-replaced-scope')
+      if chain[d]['ci'] == SUB:
+        ctx.bucket('history:super-init-of-configurable-base')
+      if n['raise']:
+        ctx.bucket('history:nested-body-raises')
+    for n in chain:
+      if n['raise']:
+        ctx.bucket('history:body-raises-Exception' if n['raise'] == 'exc' else 'history:body-raises-BaseException')
+  mark = probes.RECORDER.mark()
+  raised = False
+  try:
+    with gin.config_scope(list(scope)):
+      execute(prep)
+  except BaseException as e:  # pylint: disable=broad-except
+    # a body was told to raise: whatever reaches the caller is accepted (the property is about the record, not about the exception)
+    if not raises or isinstance(e, (KeyboardInterrupt, SystemExit)):
+      raise
+    raised = True
+  recs = probes.RECORDER.since(mark)
+  cons = [r for r in recs if r.pid in ci_of]
+  provs = sorted((_S['by_pid'][r.pid], r.scope) for r in recs if r.pid in _S['by_pid'])
+  received = cons[0].received if cons else None
+  ob = ('call', tuple((ci_of[r.pid], r.scope, normalise(r.received)) for r in cons), provs, raised)
+  if phase == 'first' and received and bound_here:
+    # the consumer edits, in place, the containers Gin handed it: the record of what Gin supplied must not change with them
+    nm = 0
+    for x in bound_here:
+      # (a constant is delivered as the very object: editing it edits the constant, which is the user's business)
+      if x not in supplied and not has(bound_here[x], ('const',)) and not (has(bound_here[x], ('macro',)) and any(has(mt, ('const',)) for mt in case['macros'].values())):
+        got = received.get(x) if x in received else (received.get('**') or {}).get(x)
+        nm += c04.mutate(got)
+    if nm:
+      ctx.bucket('history:consumer-mutated-supplied-container')
+  if then_fail and needed and phase == 'first' and needed[0] in K and len(chain) == 1 and not raises:
+    # the same call again, but one parameter nobody provides is left out: TypeError; what the earlier calls recorded must survive
+    K2 = {k: v for k, v in K.items() if k != needed[0]}
+    try:
+      with gin.config_scope(list(scope)):
+        probes.call_probe(p, list(P), K2)
+      ctx.check(False, 'call-with-missing-argument-succeeded', 'call without %r succeeded' % needed[0])
+    except TypeError:
+      ctx.bucket('history:failed-call-after-successful-call')
+    except Exception:  # pylint: disable=broad-except
+      if not sig_required(p.spec, needed[0]):   # (a missing gin.REQUIRED parameter: the exception class is C10's subject)
+        raise
+      ctx.bucket('history:failed-call-after-successful-call')
+    if model is not None:
+      # providers of Gin-supplied references run before the failure is detected
+      gs2 = models.overlay(model.bind, p.selector, scope)
+      for n_, t_ in gs2.items():
+        if n_ not in supplied:
+          model.evaluate(t_, scope)
+  if model is not None:
+    before = len(model.prov_calls)
+    for n in chain:
+      model.call_consumer(n['ci'], n['scope'], n['supplied'])
+      model.calls_log.append((n['ci'], list(n['scope']), dict(n['over'])))
+    want = [(ci_of[n['p'].pid], tuple(n['scope'])) for n in chain]
+    ctx.check([(c, s) for c, s, _ in ob[1]] == want, 'bodies-that-ran-differ-from-plan',
+              'call %r: bodies ran %r, planned %r' % (h, [(c, s) for c, s, _ in ob[1]], want))
+    ctx.check(sorted(model.prov_calls[before:]) == provs, 'provider-runs-differ-from-model',
+              'call of consumer %d under %r (caller supplied %r, nested %d): providers ran %r, model %r'
+              % (prep['ci'], scope, supplied, len(chain) - 1, provs, sorted(model.prov_calls[before:])))
+    if any(o == 'kw' and x in (bound_here or {}) and has(bound_here[x], ('ref', 'macro')) for x, o in prep['over'].items() if o):
+      ctx.bucket('override:keyword-on-reference')
+  return ob
 
 
 def equal_but_different(t):
@@ -400,16 +803,17 @@ def normalise(v):
   if type(v) in (list, tuple):
     return (type(v).__name__, tuple(normalise(x) for x in v))
   if type(v) is dict:
-    return ('dict', tuple((normalise(a), normalise(b)) for a, b in v.items()))
+    # (equal dicts are the same argument: the order of the names taken by **kwargs, or of a dict's items, is not compared)
+    return ('dict', tuple(sorted(((normalise(a), normalise(b)) for a, b in v.items()), key=repr)))
   return canon(v)
 
 
 def run_case(ctx, case):
   import gin
-  from gin import config as gc
   gin.clear_config()
-  plist = [probes.build(s) for s in case['specs']]
-  for p in plist:
+  _S['plan'].clear()
+  plist = [build_hooked(s) for s in case['specs']] + list(_S['fixed'])
+  for p in plist[:2]:
     ctx.bucket('shape:' + p.spec['shape'])
   objs = {}
   model = OpModel(case, plist)
@@ -430,97 +834,49 @@ def run_case(ctx, case):
       gin.parse_config('%s%s.%s = %s\n' % (sc + '/' if sc else '', p.key_selector, prm,
                                             c04.tree_text(tree) if not has(tree, ('const',)) else const_text(tree)))
     model.bind.setdefault((sc, p.selector), {})[prm] = tree
+    if has(tree, ('ref',)) and any_ref(tree, lambda t: len(t[2]) > 1):
+      ctx.bucket('ref:scope-of-several-components')
 
   obs1 = run_history(ctx, case, plist, objs, model, 'first')
   text = gin.operative_config_str()
-  ctx.count('texts_compared')
-  try:
-    headers, got, order = parse_operative(text)
-  except Exception as e:  # pylint: disable=broad-except
-    ctx.check(False, 'operative-config-does-not-parse', 'operative_config_str() does not parse: %r\n%s' % (e, text[:800]))
+  res = check_text(ctx, model, text, 'after the whole history')
+  if res is None:
     return
-  # ---- expected sections
-  exp_sections = set()
-  exp_bind = {}
-  all_repr = True
-  for (sc, sel), vals in model.op.items():
-    exp_sections.add((sc, sel))
-    shown = 0
-    for prm, tree in vals.items():
-      r = tree_repr(tree)
-      if r is None:
-        all_repr = False
-        ctx.bucket('param:nonrepresentable-omitted')
-        continue
-      shown += 1
-      exp_bind[(sc, sel, prm)] = r[1]
-    if not shown:
-      ctx.bucket('section:none-marker')
-    if sc:
-      ctx.bucket('section:scoped')
-    if sel.startswith('c4.prov'):
-      ctx.bucket('section:provider')
-  for m, tree in model.macros_used.items():
-    ctx.bucket('section:macro')
-    r = tree_repr(tree)
-    if r is None:
-      all_repr = False
-    else:
-      exp_bind[('MACRO', m, '')] = r[1]
-  if model.consts_used:
-    ctx.bucket('section:constant-omitted')
-  # ---- observed sections, resolved to complete names
-  got_sections = set()
-  for h in headers:
-    sc, _, sel = h.rpartition('/')
-    try:
-      ent = gc._REGISTRY.get_match(sel)
-    except KeyError:
-      ent = None
-    if not ctx.check(ent is not None, 'section-header-does-not-resolve', 'section header %r does not resolve to one configurable' % h):
+  fmt = case.get('fmt')
+  if fmt:
+    # the same record printed with other format parameters: the same sections, parameters and values
+    textf = gin.operative_config_str(max_line_length=fmt[0], continuation_indent=fmt[1])
+    ctx.bucket('text:format-variant')
+    if re.search(r'= \\$', textf, re.M):
+      ctx.bucket('text:format-variant-multiline-value')
+    if check_text(ctx, model, textf, 'after the whole history, max_line_length=%d continuation_indent=%d' % tuple(fmt)) is None:
       return
-    got_sections.add((sc, ent.selector))
-  ctx.check(got_sections == exp_sections, 'operative-sections-differ',
-            'sections printed %r, model (called pairs) %r\n%s' % (sorted(got_sections - exp_sections), sorted(exp_sections - got_sections), text[:600]))
-  got_bind = {}
-  for (sc, sel, arg), v in got.items():
-    if not arg:
-      got_bind[('MACRO', (sc + '/' if sc else '') + sel, '')] = v
-      continue
-    try:
-      ent = gc._REGISTRY.get_match(sel)
-    except KeyError:
-      ent = None
-    if ent is None:
-      ctx.check(False, 'binding-line-does-not-resolve', 'binding %s/%s.%s does not resolve' % (sc, sel, arg))
-      return
-    got_bind[(sc, ent.selector, arg)] = v
-  ga = {k: canon(v) for k, v in got_bind.items()}
-  ea = {k: canon(v) for k, v in exp_bind.items()}
-  if ga != ea:
-    d = snap.diff(ga, ea)
-    key = 'operative-parameters-differ'
-    ctx.check(False, key, 'operative text vs model (printed, expected): %r' % ({k: d[k] for k in list(d)[:6]},), {'text': text[:1500]})
-  else:
-    ctx.count('oracle_evals')
+  exp_bind, all_repr = res['exp_bind'], res['all_repr']
   # buckets about what was (not) shown
-  for hi, h in enumerate(case['history']):
-    if h[0] != 'call':
-      continue
-    p = plist[h[1]]
-    for x, o in h[3].items():
-      if o:
-        if (('/'.join(h[2]), p.selector, x) in exp_bind):
+  for ci, scope, over in model.calls_log:
+    p = plist[ci]
+    sc = '/'.join(scope)
+    for x, o in over.items():
+      if o in ('kw', 'pos'):
+        if (sc, p.selector, x) in exp_bind:
           ctx.bucket('param:caller-supplied-once-gin-once')
         else:
           ctx.bucket('param:caller-supplied-omitted')
+          if x in p.spec.get('extra', ()):
+            ctx.bucket('param:varkw-name-caller-supplied-omitted')
+    for x in p.spec.get('extra', ()):
+      if (sc, p.selector, x) in exp_bind:
+        ctx.bucket('param:varkw-name-shown')
     dv = probes.default_values(p.spec)
     for x, v in dv.items():
       if isinstance(v, dict) and '__obj__' in v:
         ctx.bucket('param:nonrepresentable-default-omitted')
-      elif (p.spec.get('deny') and x in p.spec['deny']) or (p.spec.get('allow') and x not in p.spec['allow']):
+      elif isinstance(v, dict) and '__required__' in v:
+        if (sc, p.selector, x) in exp_bind:
+          ctx.bucket('param:signature-required-filled-from-binding')
+      elif not is_configurable(p.spec, x):
         ctx.bucket('param:denylisted-default-omitted')
-      elif ('/'.join(h[2]), p.selector, x) in exp_bind and exp_bind[('/'.join(h[2]), p.selector, x)] == v:
+      elif (sc, p.selector, x) in exp_bind and exp_bind[(sc, p.selector, x)] == v:
         ctx.bucket('param:default-shown')
   if any(k[2] and k[1] in (plist[0].selector, plist[1].selector) for k in exp_bind):
     ctx.bucket('param:binding-shown')
@@ -530,9 +886,10 @@ def run_case(ctx, case):
   feats = set()
   for b in case['binds']:
     feats |= c04.tree_feats(b[3]) if b[3][0] not in ('obj', 'const') else {b[3][0]}
-  ctx.fp(tuple((s['shape'], len(s['pos']), len(s['dflt']), len(s['kwonly']), bool(s.get('allow')), bool(s.get('deny'))) for s in case['specs']),
+  ctx.fp(tuple((s['shape'], len(s['pos']), len(s['dflt']), len(s['kwonly']), bool(s.get('allow')), bool(s.get('deny')), bool(s.get('varargs')), bool(s.get('varkw')))
+               for s in case['specs']),
          tuple(sorted(feats)), tuple(sorted({tuple(h[2]) for h in case['history'] if h[0] == 'call'})), ncalls,
-         tuple(tuple(sorted(h[3].items())) for h in case['history'] if h[0] == 'call'))
+         tuple((ci, tuple(scope), tuple(sorted((x, o) for x, o in over.items() if o))) for ci, scope, over in model.calls_log))
   ctx.sample({'specs': case['specs'], 'history': case['history'], 'operative_text': text[:700]}, cap=2)
 
   # ---- a failed call (macro without a value) must not break the operative config string
@@ -547,7 +904,7 @@ def run_case(ctx, case):
       pass
     try:
       t3 = gin.operative_config_str()
-      snap.parse_text(t3)
+      snap.parse_text(undot(t3, ['c.d']) if res['dotted'] else t3)
       ctx.count('oracle_evals')
     except Exception as e:  # pylint: disable=broad-except
       ctx.check(False, 'operative-config-str-raises', 'after a failed call on an unbound macro operative_config_str() raised/does not parse: %r' % (e,))
@@ -555,20 +912,35 @@ def run_case(ctx, case):
 
   # ---- replay
   rebinds = any(h[0] in ('rebind', 'remacro') for h in case['history'])
-  if all_repr and not rebinds:
+  if all_repr and not rebinds and not res['dotted']:
+    kw = {'max_line_length': fmt[0], 'continuation_indent': fmt[1]} if fmt else {}
+    if fmt:
+      text = textf       # the text printed with other format parameters replays as well, and is reproduced under the same parameters
+      ctx.bucket('replay:of-format-variant')
     gin.clear_config()
     try:
       gin.parse_config(text)
     except Exception as e:  # pylint: disable=broad-except
-      ctx.check(False, 'operative-config-does-not-reparse', 'parse_config(operative_config_str()) failed: %r\n%s' % (e, text[:800]))
+      ctx.check(False, 'operative-config-does-not-reparse', 'parse_config(operative_config_str(%r)) failed: %r\n%s' % (kw, e, text[:800]))
       return
     obs2 = run_history(ctx, case, plist, objs, None, 'replay')
     ctx.count('replays')
     ctx.bucket('replay:done')
     for a, b in zip(obs1, obs2):
       ctx.check(a == b, 'replay-differs', 'replaying the operative config: first run %r, replay %r' % (a, b), {'text': text[:1500]})
-    text2 = gin.operative_config_str()
+    text2 = gin.operative_config_str(**kw)
     ctx.check(text2 == text, 'replay-text-differs', 'operative text after replay differs:\n%s\n---\n%s' % (text[:700], text2[:700]))
+
+
+def any_ref(t, pred):
+  if t[0] == 'ref':
+    return pred(t)
+  if t[0] in ('list', 'tuple'):
+    return any(any_ref(x, pred) for x in t[1])
+  if t[0] == 'dict':
+    return any(any_ref(a, pred) or any_ref(b, pred) for a, b in t[1])
+  return False
+
 
 
 def const_text(t):
@@ -586,7 +958,10 @@ def const_text(t):
 LEVEL_TEXT = ('Runtime monitor with an operative-record reference model: after generated call histories the real operative_config_str() is re-parsed '
               'with gin\'s own parser and compared exactly (sections = called (scope, configurable) pairs, parameters = Gin-supplied representable '
               'values incl. filtered defaults, macro section, no constants), and, when every supplied value is representable, the text is replayed on a '
-              'cleared configuration and every call must receive equal arguments, run the same providers and reproduce the text.')
+              'cleared configuration and every call must receive equal arguments, run the same providers and reproduce the text. The model is '
+              'compared with the text after every step of the history in part of the cases (not only at the end), under several format parameters, '
+              'and line by line (each binding line under the header of its own section); histories include nested calls from probe bodies, '
+              'super().__init__ of a configurable base, bodies that raise, **kwargs names and extra positional arguments.')
 LEVEL_NOTE = ('Trusted: the operative model (~60 lines) and own representability classifier. A non-representable value following a representable one '
               'for the same parameter is excluded (DESIGN X).')
 TECHNIQUE = 'runtime reference-model monitor + metamorphic replay (first run vs replay of the operative config)'
